@@ -248,6 +248,10 @@ func (wr *Writer) tightStruct(rv reflect.Value, si *sinfo) {
 }
 
 func (wr *Writer) tightSlice(rv reflect.Value, si *sinfo) {
+	if rv.Kind() == reflect.Slice && rv.Type().Elem().Kind() == reflect.Uint8 {
+		wr.appendSEN(rv.Bytes(), 0) // honor the BytesAs option
+		return
+	}
 	end := rv.Len()
 	comma := false
 	wr.buf = append(wr.buf, '[')
